@@ -380,7 +380,7 @@ def vector_goal_cases(ctx):
         if not a or not b or not (a["ok"] and b["ok"]):
             ctx.count("vector_goal_pair_unsolved")
             continue
-        if not c17.close_lists(a["objectives"], b["objectives"], 1e-5):
+        if not c17.close_lists(a["objectives"], b["objectives"], 1e-4):
             ctx.violation("formulation/vector-goal", {"case": desc, "vector": a, "scalars": b},
                           what="a vector goal and its scalar goals are different optimisation problems: optimal values %s vs %s (scale_by_problem_size=%s)" % (
                               a["objectives"], b["objectives"], desc["scale_by_problem_size"]))
